@@ -404,6 +404,12 @@ fn rand_args(r: &mut Rng, op: u8, big: bool) -> Value {
             if arity >= 1 {
                 let tn = 1 + r.below(12) as usize;
                 items[0] = rand_tree(r, tn, 8, 30);
+                if r.chance(1, 3) {
+                    // large atoms (per-byte charge of sha256tree): alone or next to the small tree
+                    let n = *r.pick(&[63usize, 64, 65, 300, 700, 2000]);
+                    let big = atom_json(&r.bytes(n));
+                    items[0] = if r.chance(1, 2) { big } else { json!({"f": items[0].clone(), "r": big}) };
+                }
             }
         }
         _ => {}
